@@ -218,6 +218,24 @@ func (in *Interp) intrinsic(fn *ssa.Function, args []Value, site *ssa.Call) (Val
 			n := ts.Const(64, uint64(len(m)))
 			return SliceV{o, ts.Const(64, 0), n, n}, true
 		}
+		// symbolic subject, anchored pattern with a literal prefix: no match when
+		// the subject provably does not start with that prefix
+		if prefix, _ := re.LiteralPrefix(); prefix != "" && strings.HasPrefix(pat, "^") {
+			v := in.viewOf(subj)
+			conds := []*Term{ts.Ule(ts.Const(64, uint64(len(prefix))), v.Len)}
+			for k := 0; k < len(prefix); k++ {
+				conds = append(conds, ts.Eq(in.viewAt(v, ts.Const(64, uint64(k))), ts.Const(8, uint64(prefix[k]))))
+			}
+			vd, _ := in.check(ts.AndN(conds...), false, nil)
+			if vd != Unsat {
+				in.unsupported("regexp match on a symbolic subject that may start with the pattern's literal prefix")
+			}
+			if strings.HasSuffix(full, "MatchString") {
+				return ts.Bool(false), true
+			}
+			z := ts.Const(64, 0)
+			return SliceV{nil, z, z, z}, true
+		}
 		// symbolic subject: find a literal byte the pattern requires
 		req := byte(0)
 		if prefix, complete := re.LiteralPrefix(); !complete && prefix == "" {
